@@ -256,7 +256,7 @@ func stimOnlyCoq(sc Script) string {
 	for _, st := range sc.Stims {
 		switch st.Op {
 		case opSub:
-			items = append(items, fmt.Sprintf("XSub %d %s %d %s %s", st.Cap, fcodeCoq(st), tmoTicks[st.Tmo], cw.B(st.OnF), cw.B(st.OnT)))
+			items = append(items, fmt.Sprintf("XSub %d %s %s %s %s", st.Cap, fcodeCoq(st), cw.Z(tmoTicks[st.Tmo]), cw.B(st.OnF), cw.B(st.OnT)))
 		case opPub:
 			items = append(items, fmt.Sprintf("XPub %d []", st.M))
 		case opCloseSub:
@@ -269,7 +269,7 @@ func stimOnlyCoq(sc Script) string {
 func nontrivial(family string, f features) bool {
 	switch family {
 	case "C06":
-		return f.NRecv >= 1 && (f.MaxGor > 0 || f.NSubs >= 2)
+		return f.NRecv >= 1 && (f.MaxGor > 0 || f.NSubs >= 2 || f.NFilteredCb > 0)
 	case "C15":
 		return f.NTimeout+f.NFilteredCb >= 1 || f.MaxGor > 0
 	case "C10":
